@@ -8,24 +8,31 @@ P = "C08"
 
 
 def _mask_div_consts(ctx, fa):
+    """values (named constants are folded by the normaliser) used as in-page mask `x & (V-1)`, as
+    divisor `x / V` and as constant multiplier"""
     masks, divs, muls = set(), set(), set()
+    def val(t):
+        v = ev(ctx, t)
+        return v if v is not None else term_str(t)
     for b in fa.live():
         for si, st in enumerate(b.stmts):
             if st["k"] != "assign" or st["rv"]["k"] != "bin":
                 continue
             op = st["rv"]["op"].replace("WithOverflow", "")
             r = unwrap_ovf(fa.origin_operand(st["rv"]["r"], b.i, si))
-            if op == "BitAnd" and r[0] == "bin" and r[1] == "Sub" and ev(ctx, r[3]) == 1:
-                c = [x for x in subterms(r[2]) if isinstance(x, tuple) and x[0] == "const"]
-                masks.add(c[0][1] if c else term_str(r[2]))
+            l = unwrap_ovf(fa.origin_operand(st["rv"]["l"], b.i, si))
+            if op == "BitAnd":
+                for side in (r, l):
+                    if side[0] == "bin" and side[1] == "Sub" and ev(ctx, side[3]) == 1:
+                        masks.add(val(side[2]))
+                    elif ev(ctx, side) is not None and ev(ctx, side) > 1 and (ev(ctx, side) + 1) & ev(ctx, side) == 0:
+                        masks.add(ev(ctx, side) + 1)   # a mask written as the literal V-1
             if op == "Div":
-                c = [x for x in subterms(r) if isinstance(x, tuple) and x[0] == "const"]
-                divs.add(c[0][1] if c else term_str(r))
+                divs.add(val(r))
             if op == "Mul":
-                for side in (r, unwrap_ovf(fa.origin_operand(st["rv"]["l"], b.i, si))):
-                    c = [x for x in subterms(side) if isinstance(x, tuple) and x[0] == "const"]
-                    if c:
-                        muls.add(c[0][1])
+                for side in (r, l):
+                    if ev(ctx, side) is not None:
+                        muls.add(ev(ctx, side))
     return masks, divs, muls
 
 
@@ -35,7 +42,7 @@ def r1(ctx):
     page, bits, byts, words, per = g("bitfield::dynamic::DYNAMIC_BITFIELD_PAGE_SIZE"), g("bitfield::fixed::FIXED_BITFIELD_BITS_LENGTH"), g("bitfield::fixed::FIXED_BITFIELD_BYTES_LENGTH"), g("bitfield::fixed::FIXED_BITFIELD_LENGTH"), g("bitfield::fixed::FIXED_BITFIELD_BITS_PER_ELEM")
     ctx.check(P, rule, "page size units agree", page == bits == 8 * (byts or 0) == 32 * (words or 0) and per == 32 and page == 32768, "32768 bits = 4096 bytes = 1024 words of 32 bits",
               "PAGE_SIZE=%s BITS_LENGTH=%s BYTES_LENGTH=%s LENGTH=%s BITS_PER_ELEM=%s" % (page, bits, byts, words, per), key="C08|C08.R1|constants")
-    PAGE = "bitfield::dynamic::DYNAMIC_BITFIELD_PAGE_SIZE"
+    PAGE = page
     for fn in (BF_GET, BF_SET, BF_SET_RANGE, BF_INDEX_OF, BF_LAST_INDEX_OF):
         fa = ctx.fn(fn)
         if not need(ctx, P, rule, fn, fa):
@@ -43,7 +50,7 @@ def r1(ctx):
         m, d, mu = _mask_div_consts(ctx, fa)
         ctx.check(P, rule, "%s: in-page mask and page divisor use the page size" % fn.split("::")[-1], m == {PAGE} and d == {PAGE} and mu <= {PAGE},
                   "index & (PAGE-1), (index - j) / PAGE", "%s uses mask constants %s, divisors %s, multipliers %s" % (fn, sorted(m), sorted(d), sorted(mu)), key="C08|C08.R1|%s|page arithmetic" % fn)
-    PER = "bitfield::fixed::FIXED_BITFIELD_BITS_PER_ELEM"
+    PER = per
     for fn in (FB + "::get", FB + "::set", FB + "::set_range"):
         fa = ctx.fn(fn)
         if not need(ctx, P, rule, fn, fa):
